@@ -166,6 +166,38 @@ func init() {
 				extraKeys := map[string]bool{} // structure of every inserted x: near-twins put into the base must differ from ALL of them
 				for j := 0; j < k; j++ {
 					x := c08Rule(g)
+					forcedY := ""
+					if g.Chance(1, 8) {
+						// a list-valued modifier that REPEATS a value, next to a rule whose list has the same length and
+						// contains every distinct value of it: the lists differ, the rules are not twins
+						pat := Pick(g, []string{"||example.org^", "@@||example.org^", "||ads.example.org^", "*"})
+						key := Pick(g, []string{"domain", "domain", "denyallow", "dnstype"})
+						pool := []string{"a.com", "b.com", "example.net", "x.org", "~a.com", "~b.com"}
+						if key == "dnstype" {
+							pool = []string{"A", "AAAA", "CNAME", "~TXT", "~MX"}
+						} else if key == "denyallow" {
+							pool = pool[:4]
+						}
+						v, w := Pick(g, pool), Pick(g, pool)
+						if v != w {
+							xl, yl := []string{v, v}, []string{v, w}
+							if g.Chance(1, 3) {
+								xl, yl = []string{v, w, v}, Pick(g, [][]string{{v, w, w}, {w, v, w}})
+							}
+							if g.Bool() {
+								yl[0], yl[1] = yl[1], yl[0]
+							}
+							tail := ""
+							if key == "denyallow" {
+								tail = ",domain=x.org"
+							}
+							x = pat + "$" + key + "=" + strings.Join(xl, "|") + tail
+							forcedY = pat + "$" + key + "=" + strings.Join(yl, "|") + tail
+							if g.Chance(1, 4) {
+								x, forcedY = forcedY, x
+							}
+						}
+					}
 					if strings.Contains(x, "badfilter") {
 						continue
 					}
@@ -203,8 +235,11 @@ func init() {
 						els = append(els[:p], append([]el{{t, true}}, els[p:]...)...)
 					}
 					// sometimes also a near-twin y of x in the base part: it must stay effective
-					if g.Chance(1, 2) {
+					if g.Chance(1, 2) || forcedY != "" {
 						y := nearTwin(g, x)
+						if forcedY != "" {
+							y = forcedY
+						}
 						if yr, err := rules.NewNetworkRule(y, 1); err == nil && !extraKeys[fieldsKey(yr)] && !strings.Contains(y, "badfilter") {
 							// y joins the base: later extras must be distinct from it as well
 							keys[fieldsKey(yr)] = true
